@@ -93,6 +93,14 @@ package value
 //@   loop 1 invariant[rest-untouched] old(c.vals) != nil ==> (forall j in rangeidx..len(c.vals) :: c.vals[j] == old(c.vals[j]))
 //@   loop 1 invariant[first-part-copied] old(c.vals) == nil ==> fresh(c.vals) && (forall j in 0..rangeidx :: typeis(entries[j], Float) ==> c.vals[j] == float64(unbox(entries[j], Float))) && (forall j in rangeidx..len(c.vals) :: c.vals[j] == 0.0)
 
+// the collected cells are handed out as Float values, cell j as entry j
+//@ func (c *collectBinning1d) result
+//@   property C20
+//@   safety C20
+//@   requires c != nil
+//@   loop 1 invariant 0 <= rangeidx && rangeidx <= len(c.vals) && len(res) == len(c.vals) && fresh(res)
+//@   loop 1 invariant[cells-copied] forall j in 0..rangeidx :: typeis(res[j], Float) && float64(unbox(res[j], Float)) == c.vals[j]
+
 // binning: the axis handed to newBinning has a non-negative number of interior bins and a positive bin size
 //@ func Binning
 //@   option evaluates
